@@ -625,8 +625,8 @@ def run(chk, replay=None):
     bcov.start()
     rng = chk.rng
     quick = chk.tier == 'quick'
-    n_fwd = 20 if quick else 100
-    n_inv = 24 if quick else 260
+    n_fwd = 20 if quick else 80
+    n_inv = 24 if quick else 220
     n_conv = 1 if quick else 4
     chk.coverage['rule'] = ('each case = (direction, frequency variable, signal); a signal is a sum of 1-3 pieces c*mod(theta)*K(a*v+b) with K from the '
                             'class (constants, steps, signum, deltas, |t|, ramps, t, t^2, rect/tri/sinc/sinc^2, Gaussian, one-/two-sided and '
